@@ -99,10 +99,10 @@ class _Exact:
         return self.hs.pdf(h) * self.s_dist(h).pdf(F * h / tz**2) * 2 * F * h / tz**3
 
     def F_tz(self, tz):
-        """marginal cdf of Tz: 400-point Gauss-Legendre rule in u = F_Hs(h); only used to PLACE conditioning values"""
+        """marginal cdf of Tz: 4000-point midpoint rule in u = F_Hs(h); only used to PLACE conditioning values"""
         if not hasattr(self, "_gl"):
-            x, w = np.polynomial.legendre.leggauss(400)
-            self._gl = (self.hs.ppf(0.5 * (x + 1)), 0.5 * w)
+            n = 4000
+            self._gl = (self.hs.ppf((np.arange(n) + 0.5) / n), np.full(n, 1.0 / n))
         h, w = self._gl
         return float(np.sum(w * self.F_tz_given_hs(tz, h)))
 
